@@ -1,4 +1,5 @@
-\* The long-chain family (both tiers): generation + statement invariants.
+\* The long-chain family incl. long cycles entered through a lead-in (both
+\* tiers): generation + statement invariants.
 CONSTANTS U = "chain" MaxLen = 0 EmitFrom = 1 Shard = 0 Perms = FALSE Families = 3 Mode = "gen"
 INIT Init
 NEXT Next
